@@ -32,16 +32,32 @@ pub fn run(out: &mut Out, seed: u64, thorough: bool) {
         }
         run_line(out, &mut s, "spec.busd");
     }
+    // 2b. the interrupt status (read at 0xF9) is raised by a key press only and survives every mask write
+    for pre in [0u32, 1, 2, 0x3F] {
+        for v in 0..=255u32 {
+            run_line(out, &mut s, "new");
+            run_line(out, &mut s, &format!("spec.busw 249 {}", pre));
+            run_line(out, &mut s, "spec.irq");
+            run_line(out, &mut s, "spec.busr 249");
+            run_line(out, &mut s, &format!("spec.busw 249 {}", v));
+            run_line(out, &mut s, "spec.busr 249");
+            run_line(out, &mut s, "spec.irq");
+            run_line(out, &mut s, "spec.busr 249");
+            run_line(out, &mut s, "spec.busd");
+        }
+    }
+    run_line(out, &mut s, "new");
     // 3. random sequences incl. input setters, compared with the model's full dump as well
     let n = if thorough { 400_000 } else { 40_000 };
     for i in 0..n {
-        let line = match rng.below(10) {
+        let line = match rng.below(11) {
             0 | 1 | 2 => format!("spec.busw {} {}", rng.byte(), rng.byte()),
             3 => format!("spec.busw {} {}", 0xF0 + rng.below(16), rng.byte()),
             4 | 5 => format!("spec.busr {}", rng.byte()),
             6 => format!("spec.busr {}", 0xF0 + rng.below(16)),
             7 => format!("spec.in {} {}", rng.below(4), rng.byte()),
             8 => format!("spec.di1 {}", rng.byte()),
+            10 => if rng.below(3) == 0 { "spec.irq".to_string() } else { format!("spec.busw 249 {}", rng.byte()) },
             _ => "spec.busd".to_string(),
         };
         run_line(out, &mut s, &line);
